@@ -76,6 +76,9 @@ func run(c *fw.Ctx) {
 		c.Cases("body-"+backend, n, func(i int, r *fw.Rand) {
 			runCase(c, we, hc, backend, i, r)
 		})
+		c.Cases("concurrent-"+backend, c.N(40, 600), func(i int, r *fw.Rand) {
+			runConcurrent(c, we.Env, backend, i, r)
+		})
 		hc.CloseIdleConnections()
 		we.Close()
 	}
